@@ -23,9 +23,11 @@ for p in props:
         'engine': 'pyvc',
         'level_claimed': {'category': 'proof',
                           'text': P.get('level_text', 'Contracts on the real functions; every obligation generated from the current /repo source is discharged by z3/cvc5 for all inputs (unbounded), modulo the trusted builtin models listed in the evidence. ' + P.get('explanation', '')),
-                          'design_ref': 'DESIGN.md section 6, ' + pid},
+                          'design_ref': 'DESIGN.md section 0.1 (what is under contract now) and section 6, ' + pid},
         'level_note': P.get('level_note', 'Trusted: the builtin/stdlib models used (listed per run in evidence trusted_base), Python semantics as encoded by pyvc; clauses marked B are bounded stand-ins and T/N-A clauses are not decided (see evidence.coverage.clauses).'),
-        'technique': P.get('technique', 'contract-based deductive verification: sidecar contracts + loop invariants on the real function ASTs, VCs by symbolic execution, discharged by z3/cvc5'),
+        'technique': P.get('technique', 'contract-based deductive verification: sidecar contracts + loop invariants on the real function ASTs, VCs by symbolic execution, discharged by z3/cvc5')
+                     + (('; in addition bounded stand-ins on the real code, labelled bounded and never counted as proved: '
+                         + ', '.join(h.rsplit('.', 1)[0].replace('bounded.', 'bounded/') + '.py' for h in P.get('extra', []))) if P.get('extra') else ''),
     })
 m = {"version": 1, "setup_cmd": "bin/setup",
      "hooks": {"guard": "XDOCTEST_VERIF",
